@@ -9,6 +9,8 @@ Case (plain value)::
      'outcomes': ['done', 'raise', 'nonpair'],
      'workers': 2,
      'init': {'0': 'DONE'},          # optional initial entries (C03)
+     'order': [2, 0, 1],             # optional: order of insertion of the tasks into the graphs
+     'groups': [{'lo': 1, 'hi': 1, 'deps': [(0, 'h')], 'by': [(2, 's')]}],   # optional nested graph nodes
      'sched': ('choices', [0, 3, 1]) | ('pct', [prio...], [points...]) | ('dfs', P)}
 """
 from hypothesis import strategies as st
@@ -22,7 +24,8 @@ from . import vsched
 OUTCOMES_OK = ['done']
 OUTCOMES_FAIL = ['failed', 'raise']
 OUTCOMES_MALFORMED = ['none', 'nonpair', 'triple', 'badstatus_str', 'badstatus_int',
-                      'badupdate_int', 'badupdate_list']
+                      'badupdate_int', 'badupdate_list', 'badupdate_emptylist', 'badupdate_zero',
+                      'badupdate_emptystr']
 ALL_OUTCOMES = OUTCOMES_OK + OUTCOMES_FAIL + OUTCOMES_MALFORMED
 FINAL = (TaskStatus.DONE, TaskStatus.FAILED, TaskStatus.SKIPPED)
 
@@ -31,17 +34,27 @@ class ProbeError(Exception):
     pass
 
 
+SHARED = 'shared-results'     # a top-level key that every probe task contributes to
+
+
 def expected_update(name, version):
+    """What a probe task returns: its own section plus one entry under a
+    top-level key shared by all tasks (Env.apply merges updates recursively)."""
     return {name: {'payload': {'a': version, 'nested': {'b': version}},
-                   'version': version, 'marker': name}}
+                   'version': version, 'marker': name},
+            SHARED: {name: {'v': version}, 'by-version': {name: {str(version): True}}}}
 
 
-def update_visible(section, name, version):
-    """Is the complete update of ``expected_update`` readable from ``section``?"""
+def update_visible(env, name, version):
+    """Is the complete update of ``expected_update`` readable from ``env``?"""
     try:
+        section = env.get(name)
+        shared = env.get(SHARED)
         return (section['payload']['a'] == version
                 and section['payload']['nested']['b'] == version
-                and section['version'] == version and section['marker'] == name)
+                and section['version'] == version and section['marker'] == name
+                and shared[name]['v'] == version
+                and shared['by-version'][name][str(version)] is True)
     except (KeyError, TypeError):
         return False
 
@@ -70,8 +83,7 @@ class Probe(Task):
             seen[dep.name] = {
                 'status': status,
                 'returned': dep.returned,
-                'visible': (update_visible(section, dep.name, dep.version)
-                            if isinstance(section, dict) else False),
+                'visible': update_visible(env, dep.name, dep.version),
                 'executions': dep.executions,
             }
         self.run.starts.append((self.name, seen))
@@ -99,6 +111,12 @@ class Probe(Task):
             return 3, TaskStatus.DONE
         if kind == 'badupdate_list':
             return [1, 2], TaskStatus.DONE
+        if kind == 'badupdate_emptylist':      # falsy things that are not mappings either
+            return [], TaskStatus.DONE
+        if kind == 'badupdate_zero':
+            return 0, TaskStatus.DONE
+        if kind == 'badupdate_emptystr':
+            return '', TaskStatus.DONE
         raise AssertionError(kind)
 
 
@@ -112,14 +130,38 @@ def all_edges(case):
 
 
 def deps_of(case):
-    """(hard, soft) dependency index sets per task, from the generated graph."""
+    """(hard, soft) dependency index sets per task, from the generated graph.
+
+    Group nodes (``case['groups']``, nested dependency graphs used as nodes, see
+    :func:`build`) contribute the dependencies they stand for: a task that
+    depends on a group comes after every member of the group, every member
+    comes after what the group depends on, and a group without members is
+    transparent (its dependees come after its dependencies; that relation is
+    hard only if both edges are hard)."""
     hard = {i: set() for i in range(case['n'])}
     soft = {i: set() for i in range(case['n'])}
-    for (i, j, kind) in all_edges(case):
+
+    def add(i, j, kind):
         if kind in ('h', 'b'):
             hard[i].add(j)
         if kind in ('s', 'b'):
             soft[i].add(j)
+    for (i, j, kind) in all_edges(case):
+        add(i, j, kind)
+    for grp in case.get('groups') or ():
+        members = range(grp['lo'], grp['hi'])
+        for (i, kind) in grp['by']:
+            for mem in members:
+                add(i, mem, kind)
+            if not members:
+                for (j, kind2) in grp['deps']:
+                    if kind in ('h', 'b') and kind2 in ('h', 'b'):
+                        add(i, j, 'b' if kind == 'b' and kind2 == 'b' else 'h')
+                    if not (kind == 'h' and kind2 == 'h'):
+                        add(i, j, 's')
+        for (j, kind2) in grp['deps']:
+            for mem in members:
+                add(mem, j, kind2)
     return hard, soft
 
 
@@ -155,21 +197,84 @@ def model_statuses(case):
     return status, execs
 
 
+def group_members(case):
+    return {mem for grp in case.get('groups') or () for mem in range(grp['lo'], grp['hi'])}
+
+
 def build(case, run):
+    """Probe tasks and the hard / soft graphs handed to Scheduler.
+
+    ``case['order']`` (optional) is the order in which the tasks are inserted
+    into the graphs.  ``case['groups']`` (optional) are nested DepGraph objects
+    used as nodes, the same object in the hard and in the soft graph: members
+    are the tasks lo..hi-1 with their mutual hard edges inside the nested
+    graph; ``deps`` = [(task j, kind)] the group depends on, ``by`` = [(task i,
+    kind)] depending on the group."""
     tasks = [Probe(f't{i}', case['outcomes'][i], run) for i in range(case['n'])]
     hard, soft = deps_of(case)
     for i, task in enumerate(tasks):
         task.hard = [tasks[j] for j in sorted(hard[i])]
         task.soft = [tasks[j] for j in sorted(soft[i])]
+    members = group_members(case)
+    inner = set()
     hgraph, sgraph = DepGraph(), DepGraph()
-    for task in tasks:
-        hgraph.add_node(task)
-        sgraph.add_node(task)
-        for dep in task.hard:
-            hgraph.add_dependency(task, on=dep)
-        for dep in task.soft:
-            sgraph.add_dependency(task, on=dep)
+    order = [i % case['n'] for i in case.get('order') or range(case['n'])]
+    order += [i for i in range(case['n']) if i not in order]
+    for idx in order:
+        if idx not in members:
+            hgraph.add_node(tasks[idx])
+            sgraph.add_node(tasks[idx])
+    for grp in case.get('groups') or ():
+        nested = DepGraph()
+        rng = range(grp['lo'], grp['hi'])
+        for mem in rng:
+            nested.add_node(tasks[mem])
+        for (i, j, kind) in all_edges(case):
+            if i in rng and j in rng and kind in ('h', 'b'):
+                nested.add_dependency(tasks[i], on=tasks[j])
+                inner.add((i, j, 'h'))
+        if not any(k in ('s', 'b') for (_x, k) in grp['deps'] + grp['by']):
+            hgraph.add_node(nested)
+        elif not any(k in ('h', 'b') for (_x, k) in grp['deps'] + grp['by']):
+            sgraph.add_node(nested)
+        for (j, kind) in grp['deps']:
+            if kind in ('h', 'b'):
+                hgraph.add_dependency(nested, on=tasks[j])
+            if kind in ('s', 'b'):
+                sgraph.add_dependency(nested, on=tasks[j])
+        for (i, kind) in grp['by']:
+            if kind in ('h', 'b'):
+                hgraph.add_dependency(tasks[i], on=nested)
+            if kind in ('s', 'b'):
+                sgraph.add_dependency(tasks[i], on=nested)
+    for idx in order:
+        for (i, j, kind) in all_edges(case):
+            if i != idx:
+                continue
+            if kind in ('h', 'b') and (i, j, 'h') not in inner:
+                hgraph.add_dependency(tasks[i], on=tasks[j])
+            if kind in ('s', 'b'):
+                sgraph.add_dependency(tasks[i], on=tasks[j])
     return tasks, hgraph, sgraph
+
+
+def shape_labels(case):
+    """Labels describing the decorations of the graph (for evidence classes)."""
+    labs = []
+    if case.get('order'):
+        labs.append('insertion-order-permuted')
+    groups = case.get('groups') or ()
+    if groups:
+        labs.append('group-nodes')
+    for grp in groups:
+        if grp['lo'] == grp['hi'] and grp['deps'] and grp['by']:
+            labs.append('empty-group-between')
+            kinds = {k for (_x, k) in grp['deps']} | {k for (_x, k) in grp['by']}
+            if 'h' in kinds and 's' in kinds:
+                labs.append('empty-group-between-mixed-kinds')
+        if grp['hi'] > grp['lo'] and (grp['deps'] or grp['by']):
+            labs.append('group-with-members-and-edges')
+    return sorted(set(labs))
 
 
 class Record:
@@ -286,14 +391,40 @@ def graphs(draw, max_tasks=7, min_tasks=1):
     return n, edges
 
 
+@st.composite
+def extras(draw, n):
+    """Optional decorations of a graph over n tasks: insertion order and group
+    nodes (nested graphs).  Returns a dict to merge into the case."""
+    extra = {}
+    if n >= 2 and draw(st.integers(0, 2)) == 0:
+        extra['order'] = draw(st.permutations(list(range(n))))
+    if draw(st.integers(0, 3)) == 0:
+        groups = []
+        start = 0
+        for _ in range(draw(st.integers(1, 2))):
+            if start > n:
+                break
+            lo = draw(st.integers(start, n))
+            hi = draw(st.sampled_from([lo, lo, min(n, lo + 1), min(n, lo + 2)]))
+            deps = ([(j, draw(_kind())) for j in draw(st.lists(st.integers(0, lo - 1), max_size=2,
+                                                               unique=True))] if lo > 0 else [])
+            dependees = ([(i, draw(_kind())) for i in draw(st.lists(st.integers(hi, n - 1), max_size=2,
+                                                                    unique=True))] if hi < n else [])
+            groups.append({'lo': lo, 'hi': hi, 'deps': deps, 'by': dependees})
+            start = hi + 1
+        if groups:
+            extra['groups'] = groups
+    return extra
+
+
 def outcomes(n, fail_weight):
-    """Per-task outcome; ``fail_weight`` in [0, 1] is the share of failing kinds."""
-    n_ok = max(1, int(round((1 - fail_weight) * 20)))
-    n_bad = 20 - n_ok
-    pool = ['done'] * n_ok
-    bad = OUTCOMES_FAIL * 2 + OUTCOMES_MALFORMED
-    pool += [bad[k % len(bad)] for k in range(n_bad)] if n_bad else []
-    return st.lists(st.sampled_from(pool), min_size=n, max_size=n)
+    """Per-task outcome; ``fail_weight`` in [0, 1] is the share of failing kinds.
+    Among the failing kinds, FAILED / raise take half, the malformed returns
+    (all of them, uniformly) the other half."""
+    bad = st.one_of(st.sampled_from(OUTCOMES_FAIL), st.sampled_from(OUTCOMES_MALFORMED))
+    one = st.tuples(st.integers(0, 999), bad).map(
+        lambda pair: pair[1] if pair[0] < int(fail_weight * 1000) else 'done')
+    return st.lists(one, min_size=n, max_size=n)
 
 
 def schedules(max_len=80):
